@@ -831,6 +831,13 @@ class Exec:
         if isinstance(op, (ast.In, ast.NotIn)) and isinstance(b, KwDict):
             r = z3.BoolVal(self.const_str(a) in b.items)
             return r if isinstance(op, ast.In) else z3.Not(r)
+        if isinstance(op, (ast.In, ast.NotIn)) and isinstance(b, MapIterV) and isinstance(b.m.ty, TMap) and b.kind in ('values', 'keys'):
+            x_ = self.val(a)
+            if b.kind == 'keys': r = self.contains(b.m, x_)
+            else:
+                kc = fresh('sk', sort_of(b.m.ty.k))
+                r = z3.Exists([kc], z3.And(z3.Select(b.m.t[0], kc), veq(unpack(z3.Select(b.m.t[1], kc), b.m.ty.v), x_)))
+            return r if isinstance(op, ast.In) else z3.Not(r)
         if isinstance(op, (ast.In, ast.NotIn)):
             r = self.contains(self.val(b) if not isinstance(b, IterV) else b, self.val(a))
             return r if isinstance(op, ast.In) else z3.Not(r)
@@ -1315,6 +1322,9 @@ class Exec:
     # ---------------- comprehensions
     def e_GeneratorExp(self, n): return self.comprehension(n)
     def e_ListComp(self, n): return self.comprehension(n)
+    def e_SetComp(self, n):
+        # {elt for x in xs}: the set of the elements of the corresponding list comprehension
+        return call_builtin(self, 'set', [self.comprehension(n)], {}, n)
 
     def comprehension(self, n):
         if len(n.generators) != 1 or n.generators[0].is_async or len(n.generators[0].ifs) > 1:
@@ -1835,7 +1845,7 @@ class Exec:
         pos = [a for a in args if not isinstance(a, tuple)]
         vals = {}
         def co_arg(a, ty):
-            if isinstance(a, (CoroV, BoundMethod, FuncRef, LambdaV)) and isinstance(ty, TRef) and ty.universal:
+            if isinstance(a, (CoroV, BoundMethod, FuncRef, LambdaV, ClassRef, BuiltinRef, ExcClass)) and isinstance(ty, TRef) and ty.universal:
                 return V(ty, fresh('pyobj', sort_of(ty)))      # a coroutine / callable handed to outside code: an opaque object
             try: return self.co(a, ty)
             except Unsupported:
